@@ -15,6 +15,7 @@ fi
 args=(); replay=""
 while [ $# -gt 0 ]; do
   case "$1" in
+    --build-only) exit 0;;
     --replay) replay="$2"; shift 2;;
     *) args+=("$1"); shift;;
   esac
